@@ -57,6 +57,8 @@ func withBounding(p M, b int) M {
 	case 3:
 		q["allowedValuesRangeScaling"] = 0.5
 		q["disallowNegativeValues"] = true
+	case 4:
+		q["allowedValuesRangeScaling"] = -2.0 // any negative factor means "no limits", not only the default -1
 	}
 	return q
 }
@@ -140,6 +142,12 @@ func biasAlphabet(level int) []M {
 	}
 	out = append(out, bias("criteriaOmission", M{"ratio": 0.67, "max": 1}), bias("preferenceReversal", M{"ratio": 1.0, "max": 1, "min": 1}))
 	out = append(out, bias("criteriaOmission", M{"ratio": 0.67})) // leaves a single criterion of three
+	{
+		// inline anchoring with its applier parameters left out (documented default: considered alternatives only)
+		ab := anchoringBias(0, false, false)
+		delete(asM(asM(ab["props"])["applier"]), "params")
+		out = append(out, ab)
+	}
 	for fi, f := range []M{{"function": "const", "params": M{"value": 0.25}, "randomSeed": 2}, {"function": "expFromZero", "params": M{"alpha": 0.5, "multiplier": 1.0, "queryNumber": 1}, "randomSeed": 3}} {
 		for b := 0; b < 3; b++ {
 			if level == 1 && (fi+b)%2 == 1 {
